@@ -15,13 +15,44 @@ state = {"level", "lines", "jn", "mw"}; call = {"op", "t", "p", "w", "k", "a"}.
 from __future__ import annotations
 
 import json
+import signal
 import sys
 
 from harness import core
 
 core.install_tree_under_test()
 
+try:  # a runaway buffer in the code under test must end as a MemoryError in the call, not as an OOM kill of the machine
+    import resource
+
+    resource.setrlimit(resource.RLIMIT_AS, (3 << 30, 3 << 30))
+except Exception:  # noqa: BLE001
+    pass
+
 from pyopenapi_gen.core.writers.code_writer import CodeWriter  # noqa: E402
+from pyopenapi_gen.core.writers.line_writer import LineWriter  # noqa: E402
+
+CODE_ONLY = {"write_line", "write_block", "write_wrapped_line", "write_wrapped_docstring_line", "write_function_signature", "get_code"}
+
+
+class Bare:
+    """A LineWriter used on its own (as DocumentationFormatter does), behind the attribute layout of a CodeWriter."""
+
+    def __init__(self, max_width: int) -> None:
+        self.writer = LineWriter(max_width=max_width)
+
+    def indent(self) -> None:
+        self.writer.indent()
+
+    def dedent(self) -> None:
+        self.writer.dedent()
+
+
+def _alarm(signum, frame):  # noqa: ANN001
+    raise TimeoutError("call did not return within 5 s")
+
+
+signal.signal(signal.SIGALRM, _alarm)
 
 DEC = {"|": "\n", "^": "\t", "~": "\u2028"}
 ENC = {v: k for k, v in DEC.items()}
@@ -35,8 +66,8 @@ def enc(s: str) -> str:
     return "".join(ENC.get(ch, ch) for ch in s)
 
 
-def build(state: dict) -> CodeWriter:
-    w = CodeWriter(max_width=state["mw"])
+def build(state: dict, bare: bool = False):  # noqa: ANN201
+    w = Bare(state["mw"]) if bare else CodeWriter(max_width=state["mw"])
     lw = w.writer
     lw.lines = [dec(x) for x in state["lines"]]
     lw.indent_level = state["level"]
@@ -45,7 +76,7 @@ def build(state: dict) -> CodeWriter:
     return w
 
 
-def project(w: CodeWriter) -> dict:
+def project(w) -> dict:  # noqa: ANN001
     lw = w.writer
     return {"level": int(lw.indent_level), "lines": [enc(str(x)) for x in lw.lines], "jn": bool(lw._just_newlined), "mw": int(lw.max_width)}
 
@@ -95,20 +126,31 @@ def apply(w: CodeWriter, c: dict) -> str:
     return ""
 
 
-def step(w: CodeWriter, c: dict) -> tuple[str, str]:
+def step(w, c: dict) -> tuple[str, str]:  # noqa: ANN001
+    signal.setitimer(signal.ITIMER_REAL, 5.0)
     try:
         return apply(w, c), "none"
     except KeyError:
         raise
     except Exception as e:  # noqa: BLE001
         return "", type(e).__name__
+    finally:
+        signal.setitimer(signal.ITIMER_REAL, 0)
 
 
 def run_edges(job: dict) -> dict:
     out = []
     for rec in job["recs"]:
-        w = build(rec["s"])
+        # LineWriter methods are driven on a LineWriter of its own, CodeWriter methods on a CodeWriter;
+        # indent / dedent exist on both: both are driven and must agree
+        op = rec["c"]["op"]
+        w = build(rec["s"], bare=op not in CODE_ONLY)
         ret, exc = step(w, rec["c"])
+        if op in ("indent", "dedent") and exc == "none":
+            w2 = build(rec["s"])
+            ret2, exc2 = step(w2, rec["c"])
+            if exc2 != "none" or project(w2) != project(w):
+                w, ret, exc = w2, ret2, exc2
         out.append({"id": rec["id"], "kind": "step", "s": rec["s"], "c": rec["c"], "r": project(w), "ret": ret, "exc": exc})
     return {"id": job["id"], "out": out}
 
@@ -125,10 +167,19 @@ def run_paths(job: dict) -> dict:
     out = []
     for path in job["paths"]:
         w = CodeWriter(max_width=path["mw"])
+        fresh = project(w)
+        if len(fresh["lines"]) > 50:  # (a runaway buffer: keep the report small)
+            fresh["lines"] = fresh["lines"][:50]
+        out.append({"id": f"{path['id']}.new", "kind": "fresh", "s": fresh, "mw": path["mw"]})
+        if fresh != {"level": 0, "lines": [""], "jn": True, "mw": path["mw"]}:
+            continue  # not a new writer: the "fresh" record reports it, replaying the calls would say nothing
         for i, c in enumerate(path["calls"]):
             pre = project(w)
+            if len(pre["lines"]) > 500:
+                break
             ret, exc = step(w, c)
             out.append({"id": f"{path['id']}.{i}", "kind": "step", "s": pre, "c": c, "r": project(w), "ret": ret, "exc": exc})
+        before = (project(w), w.get_code())
         # purity: a second instance, used while a third one is being used for something else
         b, other = CodeWriter(max_width=path["mw"]), CodeWriter(max_width=path["mw"])
         for i, c in enumerate(path["calls"]):
@@ -136,6 +187,7 @@ def run_paths(job: dict) -> dict:
             step(b, c)
             step(other, NOISE[(i + 1) % len(NOISE)])
         same = project(b) == project(w) and b.get_code() == w.get_code() and b.writer.getvalue() == w.writer.getvalue()
+        same = same and before == (project(w), w.get_code())  # ... and using other instances did not touch this one
         # ... and the text is a function of the state the calls built, not of when it is asked for
         again = w.get_code() == w.get_code() and project(w) == project(w)
         out.append({"id": f"{path['id']}.pure", "kind": "pure", "same": bool(same and again), "calls": len(path["calls"])})
